@@ -195,5 +195,5 @@ def run(ck):
   ck.extra_cov['explicit_designs'] = made
 
 def replay(ck, data):
-  print(data['case'].get('source', '')); print(data['detail'])
-  return 1
+  print(data.get('kind'), data.get('signature')); print(str(data.get('detail'))[:1500])
+  return rtlgen.replay_source(ck, data.get('case') or {})
